@@ -98,7 +98,7 @@ def make_case(rng):
     asn4 = rng.random() < 0.5
     attrs = gen.std_attrs(rng, asn4)
     variants = dict(ext=rng.random() < 0.3, dirty=(0xff if rng.random() < 0.4 else None), shuffle=rng.random() < 0.5,
-                    as4=rng.random() < 0.3, addpath=rng.random() < 0.2, mp=None)
+                    as4=rng.random() < 0.3, addpath=rng.random() < 0.2, mp=None, reserved=rng.choice([0, 0, 0, 1, 255]))
     if variants['as4']:
         attrs[17] = gen.as_path(rng, True)
         if rng.random() < 0.5:
@@ -143,6 +143,10 @@ def encode(asn4, attrs, nlri, wdl, variants, rng):
             # the statement names non-zero trailing bits for IPv4 prefixes (Update.parse_prefix_list, IPv4Unicast.parse) only
             d = variants['dirty'] if tuple(attrs[code]['afi_safi']) == (1, 1) else None
             val = refenc.mp_reach_value(attrs[code], d) if code == 14 else refenc.mp_unreach_value(attrs[code], d)
+            if code == 14 and variants.get('reserved'):
+                # the octet after the next hop 'MUST be ignored on receipt' (RFC 4760; it was the SNPA count of RFC 2858)
+                k_ = 4 + val[3]
+                val = val[:k_] + bytes([variants['reserved']]) + val[k_ + 1:]
         else:
             val = refenc.std_attr_value(code, attrs[code], asn4)
         at += refenc.attr(code, val, ext=variants['ext'])
@@ -153,7 +157,7 @@ def encode(asn4, attrs, nlri, wdl, variants, rng):
 
 
 def vfeatures(attrs, nlri, wdl, variants):
-    f = ['variant:' + k for k in ('ext', 'shuffle', 'as4', 'addpath') if variants[k]]
+    f = ['variant:' + k for k in ('ext', 'shuffle', 'as4', 'addpath', 'reserved') if variants[k]]
     if variants['dirty'] is not None:
         f.append('variant:dirty-bits')
     for k in (14, 15):
@@ -318,6 +322,10 @@ def run_shard(sh):
         for bits in list(range(33, 256)):
             cases.append(('nlri-prefix-length', refenc.attributes(base, asn4), bytes([bits]) + b'\xc0\x00\x02\x00' + b'\x00' * ((bits + 7) // 8), b''))
             cases.append(('withdrawn-prefix-length', b'', b'', bytes([bits]) + b'\x00' * ((bits + 7) // 8)))
+            # the same inside MP_REACH_NLRI / MP_UNREACH_NLRI of the IPv4 unicast family
+            pfx = bytes([bits]) + b'\xc0\x00\x02\x00' + b'\x00' * max(0, (bits + 7) // 8 - 4)
+            cases.append(('mp-reach-prefix-length', refenc.attributes(base, asn4) + refenc.attr(14, struct.pack('!HBB', 1, 1, 4) + b'\x0a\x00\x00\x01\x00' + pfx), b'', b''))
+            cases.append(('mp-unreach-prefix-length', refenc.attr(15, struct.pack('!HB', 1, 1) + pfx), b'', b''))
         for st in [0] + list(range(5, 256)):
             seg = bytes([st, 1]) + struct.pack('!I' if asn4 else '!H', 65001)
             cases.append(('aspath-segment-type', refenc.attr(1, b'\x00') + refenc.attr(2, seg) + refenc.attr(3, b'\x0a\x00\x00\x01'), b'\x18\xc0\x00\x02', b''))
